@@ -202,7 +202,13 @@ impl<'a> Interp<'a> {
             // known finding KF-C03-1: shutdown only queues the buffered messages
             self.out.exclude("KF-C03-1");
             let _ = self.node().background_save();
-            self.quiesce_nowait();
+            if !self.quiesce_nowait_for(30) {
+                // the machine is too loaded for the mask to be applied (the persister did not get to
+                // write within 30 s): the rest of this case is not interpreted (counted, never a verdict)
+                self.out.label("model-limit-nowait-quiesce-timeout");
+                self.abort = true;
+                return Ok(());
+            }
         }
         let had_retained = self.parts.iter().any(|p| p.retained() > 0);
         let rolled = self.out.labels.contains(&"roll-over");
